@@ -126,8 +126,26 @@ def localise(t, envs, cx, route):
     return t
 
 
-def bucket_of(route, kind, t):
+def undefined_operands(t, cx):
+    """an ==/!= node whose two operands both collapse to an undefined value (top) under the complexity threshold"""
+    from amoco.config import conf
+
+    if t[0] != "bin" or t[1] not in ("==", "!="):
+        return False
+    old = conf.Cas.complexity
+    conf.Cas.complexity = cx
+    try:
+        return all(not R.build(c).simplify()._is_def for c in (t[2], t[3]))
+    except Exception:
+        return False
+    finally:
+        conf.Cas.complexity = old
+
+
+def bucket_of(route, kind, t, cx=None):
     r = "E2" if route.startswith("E2") else "E1"
+    if kind == "value" and cx is not None and undefined_operands(t, cx):
+        return "%s:value:%s-of-two-undefined" % (r, t[1])
     return "%s:%s:%s" % (r, kind, R.signature(t))
 
 
@@ -182,7 +200,7 @@ def _run_case(part, t, envs, cx):
             route2, kind2, detail2 = f2[0]
         else:
             m, kind2, detail2 = t, kind, detail
-        b = bucket_of(route, kind2, m)
+        b = bucket_of(route, kind2, m, cx)
         if b in seen:
             continue
         seen.add(b)
@@ -235,5 +253,5 @@ def replay(case):
     routes = ROUTES if not case.get("route") else tuple(r for r in ROUTES if r.startswith(case["route"][:2]))
     fails, _ = eval_routes(t, envs, case["complexity"], routes)
     for route, kind, detail in fails:
-        return (bucket_of(route, kind, t), detail)
+        return (bucket_of(route, kind, t, case["complexity"]), detail)
     return None
